@@ -71,7 +71,7 @@ func runC13(c *core.Ctx) {
 	checkFixedTableIndices(c, "R13.13")
 	c.Rule("R13.12", "a caller never abandons its reply channel while the pool may still send on it: the loops receiving the replies of a multi-key request run until the channel is closed (or leave on the retry marker only if recovery sends it at most once per channel)", 2)
 	checkCallersKeepReceiving(c, "R13.12")
-	c.Share(map[string]string{"R6.3": "R13.11"}, runC06) // recovery tells a caller to retry only if its channel's count of outstanding replies is right
+	c.Share(map[string]string{"R6.3": "R13.11", "R6.5": "R13.15"}, runC06) // recovery tells a caller to retry only if its channel's count of outstanding replies is right
 	c.Rule("R13.10", "the table of replies still owed is a multiset (populated by counting): an entry is deleted only when its count is one, otherwise decremented - or a retry asks for fewer keys than are owed", 2)
 	checkOwedMultiset(c, "R13.10")
 	c.Rule("R13.9", "the table recovery consults to decide who still waits loses a reply's entry only when that reply is handed over: between the removal and the send (or the next header read) the reader cannot fail into recovery", 2)
